@@ -19,10 +19,14 @@ pub fn no_child(_: &[String]) -> i32 {
 }
 
 pub mod okey;
+pub mod crash;
+pub mod fault;
 
 pub fn all() -> Vec<StreamDef> {
     vec![
         okey::def(),
+        crash::def(),
+        fault::def(),
     ]
 }
 
